@@ -23,6 +23,8 @@ const NONE: usize = Instruments::NoInstruments.into();
 const EXPMETRICS: usize = Instruments::ExpensiveMetricsWithoutLogs.into();
 const LOGEXPMETRICS: usize = Instruments::LogsWithExpensiveMetrics.into();
 const TIMEOUT_MS: u64 = 50;
+/// the futures timeout of the current run, in microseconds (a third of the runs with a timeout use a SUB-MILLISECOND one: 700 us)
+static TIMEOUT_US: std::sync::atomic::AtomicU64 = std::sync::atomic::AtomicU64::new(TIMEOUT_MS * 1000);
 
 static LOG: Mutex<Vec<String>> = Mutex::new(Vec::new());
 fn ev(s: String) { LOG.lock().unwrap().push(s); }
@@ -72,7 +74,7 @@ async fn run_uni<const INSTR: usize, const MS: usize>(variant: &str, timeout: bo
     let new_gauge = { let g = gauges.clone(); move || { let p = (Arc::new(AtomicI32::new(0)), Arc::new(AtomicI32::new(0))); g.lock().unwrap().push(p.clone()); p } };
     let totals = Arc::new(Mutex::new((0u32, 0u32, 0u32)));
     let on_err_count = Arc::new(AtomicU32::new(0));
-    let to = if timeout { Duration::from_millis(TIMEOUT_MS) } else { Duration::ZERO };
+    let to = if timeout { Duration::from_micros(TIMEOUT_US.load(SeqCst)) } else { Duration::ZERO };
     macro_rules! drive { ($uni:expr) => {{
         let uni = $uni;
         for (k, v) in items.iter().enumerate() {
@@ -238,7 +240,7 @@ async fn run_latch(trial: u64) -> u32 {
 }
 
 /// C12 (third sentence) + C06 for a Multi: the log channel's oldies executor hands over to the newies executor
-async fn run_transition(seed: u64, sequential: bool, limit: u32, n_old: u32, n_new: u32, slow_old: bool, early_close: bool) -> Vec<String> {
+async fn run_transition(seed: u64, sequential: bool, limit: u32, n_old: u32, n_new: u32, slow_old: bool, early_close: bool, remove_oldies: bool) -> Vec<String> {
     let name = format!("vh-transition-{}-{}", std::process::id(), seed);
     let multi = Arc::new(MultiMmapLog::<u32, 4, NONE>::new(name.clone()));
     for i in 0..n_old { let _ = multi.send(100 + i); }
@@ -250,6 +252,17 @@ async fn run_transition(seed: u64, sequential: bool, limit: u32, n_old: u32, n_n
         "newies", move |s| s.map(move |v: &u32| { let (l, v) = (l3.clone(), *v); async move { l.lock().unwrap().push(format!("processed {v}")); } }),
         move |_| { let l = l4.clone(); async move { l.lock().unwrap().push("newies_callback".into()); } }).await.expect("spawn");
     for i in 0..n_new { let _ = multi.send(200 + i); tokio::time::sleep(Duration::from_millis(1)).await; }
+    if remove_oldies {
+        // the oldies executor is removed INDIVIDUALLY (unbounded) while it is still replaying and new events are already pending: the removal
+        // must come back (the oldies stream ends by itself after the replay, its close callback starts the newies executor, which drains
+        // what is pending), both close callbacks run exactly once
+        tokio::time::sleep(Duration::from_millis(25)).await;
+        log.lock().unwrap().push("removecalled".into());
+        match tokio::time::timeout(Duration::from_secs(5), multi.flush_and_cancel_executor("oldies".to_string(), Duration::ZERO)).await {
+            Ok(b) => log.lock().unwrap().push(format!("removereturned {b}")),
+            Err(_) => log.lock().unwrap().push("removestuck".into()),
+        }
+    }
     if early_close {
         // a bounded close() that expires while the old events are still being replayed: every stream is told to end; both executors must
         // still run to their end (the close callback of each exactly once)
@@ -451,6 +464,41 @@ async fn run_endreuse(seed: u64) -> (Vec<String>, Vec<(String, String)>) {
     (trace, viol)
 }
 
+/// C06 (`sub=mremove`, real clock): a Multi with 2-3 sequential listeners; listener 0 (3 ms per item) is removed INDIVIDUALLY with a BOUNDED
+/// `flush_and_cancel_executor` that expires while it still has a backlog; it then works its backlog off, ends and drops its stream; a later
+/// unbounded `close()` -- issued while the slowest listener (10 ms per item) is still busy -- must wait for every listener.
+macro_rules! mremove_kind { ($fname:ident, $ty:ty) => {
+    async fn $fname(n_listeners: usize, n_events: u32) -> Vec<Vec<String>> {
+        let multi = Arc::new(<$ty>::new("vh-mremove"));
+        let log = Arc::new(Mutex::new(Vec::<(usize, String)>::new()));
+        let delays = [3u64, 10, 0];
+        for l in 0..n_listeners {
+            let (lg, lg2, d) = (log.clone(), log.clone(), delays[l]);
+            multi.spawn_futures_executor(1, Duration::ZERO, format!("listener{l}"),
+                move |s| s.map(move |v| { let (lg, v) = (lg.clone(), *v); lg.lock().unwrap().push((l, format!("call 0 yielded {v}")));
+                                          async move { if d > 0 { tokio::time::sleep(Duration::from_millis(d)).await; } lg.lock().unwrap().push((l, format!("call 0 finished {v}"))); } }),
+                move |_| { let lg = lg2.clone(); async move { lg.lock().unwrap().push((l, "call 0 callback".into())); } }).await.expect("spawn");
+        }
+        for i in 0..n_events { assert!(multi.send(10 + i).is_ok()); log.lock().unwrap().push((usize::MAX, format!("call 0 accepted {}", 10 + i))); }
+        tokio::time::sleep(Duration::from_millis(2)).await;
+        log.lock().unwrap().push((0, "call 0 cancelall".into()));
+        let _ = multi.flush_and_cancel_executor("listener0".to_string(), Duration::from_millis(3)).await;
+        let done0 = log.lock().unwrap().iter().filter(|(w, x)| *w == 0 && x.starts_with("call 0 finished")).count();
+        log.lock().unwrap().push((usize::MAX, format!("# bounded removal of listener 0 expired: {}", (done0 as u32) < n_events)));
+        // listener 0 works its backlog off, ends and drops its stream; listener 1 (10 ms per item) is still busy afterwards
+        tokio::time::sleep(Duration::from_millis(3 * n_events as u64 + 25)).await;
+        log.lock().unwrap().push((usize::MAX, "call 0 closecalled".into()));
+        let ok = multi.close(Duration::ZERO).await;
+        log.lock().unwrap().push((usize::MAX, "call 0 closereturned".into()));
+        if !ok { log.lock().unwrap().push((usize::MAX, "call 0 closeanswered false".into())); }
+        tokio::time::sleep(Duration::from_millis(10 * n_events as u64 + 50)).await;
+        let lg = log.lock().unwrap().clone();
+        (0..n_listeners).map(|l| lg.iter().filter(|(w, _)| *w == l || *w == usize::MAX).map(|(_, s)| s.clone()).collect()).collect()
+    }
+} }
+mremove_kind!(mremove_arc_atomic, MultiAtomicArc<u32, 64, 4, NONE>);
+mremove_kind!(mremove_ogre_atomic, MultiAtomicOgreArc<u32, 64, 4, NONE>);
+
 fn runtime(multi: bool) -> tokio::runtime::Runtime {
     if multi { tokio::runtime::Builder::new_multi_thread().worker_threads(4).enable_all().build().unwrap() }
     else { tokio::runtime::Builder::new_current_thread().enable_all().start_paused(true).build().unwrap() }
@@ -497,6 +545,43 @@ fn main() {
                 let header = vec![format!("cmd exec sub=mcancel runs=1 seedx={seed}"), format!("violation {k}: {d}")];
                 let p = write_replay(&replay_dir, &format!("{pid}-exec-mcancel-seed{seed}-{k}"), &header, &trace);
                 rep.violations.push(Violation { run: i, seed, kind: k, detail: d, replay: p });
+            }
+        }
+        rep.print();
+        return
+    }
+    if sub == "mremove" {
+        for i in 0..runs {
+            let seed = if a.kv.contains_key("seedx") { a.num("seedx", 0) } else { seed0.wrapping_mul(1_000_003).wrapping_add(i) };
+            mark_run(seed);
+            let mut rng = Rng::new(seed ^ 0x3E);
+            let ogre = rng.chance(1, 2);
+            let nl = rng.range(2, 3) as usize;
+            let ne = rng.range(5, 10) as u32;
+            // real clock: `end_stream` / `flush` measure their timeouts with std's `Instant`
+            let rt = if multi { runtime(true) } else { tokio::runtime::Builder::new_current_thread().enable_all().build().unwrap() };
+            let logs = rt.block_on(async { if ogre { mremove_ogre_atomic(nl, ne).await } else { mremove_arc_atomic(nl, ne).await } });
+            drop(rt);
+            let kind = if ogre { "ogre_atomic" } else { "arc_atomic" };
+            for (l, trace) in logs.iter().enumerate() {
+                let mut viol: Vec<(String, String)> = vec![];
+                let closed_at = trace.iter().position(|x| x == "call 0 closereturned").unwrap_or(trace.len());
+                for v in (0..ne).map(|k| 10 + k) {
+                    match trace.iter().position(|x| *x == format!("call 0 finished {v}")) {
+                        Some(p) if p < closed_at => {}
+                        _ => viol.push(("close_before_processed".into(), format!("Multi {kind}, {nl} sequential listeners (3 / 10 / 0 ms per item), listener #0 removed earlier by a bounded flush_and_cancel_executor ({}): close() returned before listener #{l} had processed accepted event {v} (it had processed {} of {ne})", trace.iter().find(|x| x.starts_with("# bounded")).cloned().unwrap_or_default(), trace[..closed_at].iter().filter(|x| x.starts_with("call 0 finished")).count()))),
+                    }
+                }
+                let cbs = trace.iter().filter(|x| *x == "call 0 callback").count();
+                if cbs != 1 { viol.push(("close_callback_count".into(), format!("Multi {kind}: the close callback of listener #{l} ran {cbs} times"))); }
+                if trace.iter().any(|x| x == "call 0 closeanswered false") { viol.push(("close_failed".into(), "Multi::close() with an unbounded timeout answered false".into())); }
+                rep.add_run(trace, trace.iter().any(|x| x.ends_with("expired: true")), &format!("mremove/{kind}/l{nl}"), "Completed");
+                viol.truncate(2);
+                for (k, d) in viol {
+                    let header = vec![format!("cmd exec sub=mremove runs=1 seedx={seed}"), format!("violation {k}: {d}")];
+                    let p = write_replay(&replay_dir, &format!("{pid}-exec-mremove-seed{seed}-l{l}-{k}"), &header, trace);
+                    rep.violations.push(Violation { run: i, seed, kind: k, detail: d, replay: p });
+                }
             }
         }
         rep.print();
@@ -606,9 +691,12 @@ fn main() {
             mark_run(seed);
             let mut rng = Rng::new(seed ^ 0x7A);
             let (sequential, limit, n_old, n_new, slow) = (rng.chance(2, 3), rng.range(1, 3) as u32, rng.range(0, 4) as u32, rng.range(0, 4) as u32, rng.chance(1, 2));
-            let early = sequential && slow && n_old >= 2 && rng.chance(1, 2);
+            let early0 = sequential && slow && n_old >= 2 && rng.chance(1, 2);
+            // (drawn from a generator of its own so that the other choices of a seed stay what they were)
+            let remove_oldies = sequential && slow && n_old >= 2 && n_new >= 1 && Rng::new(seed ^ 0x01D).chance(3, 4);
+            let early = early0 && !remove_oldies;
             let rt = runtime(multi);
-            let trace = rt.block_on(run_transition(seed, sequential, limit, n_old, n_new, slow, early));
+            let trace = rt.block_on(run_transition(seed, sequential, limit, n_old, n_new, slow, early, remove_oldies));
             drop(rt);
             let mut viol: Vec<(String, String)> = vec![];
             let pos = |x: &str| trace.iter().position(|l| l == x);
@@ -625,7 +713,8 @@ fn main() {
             for cb in ["oldies_callback", "newies_callback"] { let c = trace.iter().filter(|l| *l == cb).count(); if c != 1 { viol.push(("close_callback_count".into(), format!("{cb} ran {c} times"))); } }
             if let (Some(cb), Some(cr)) = (pos("newies_callback"), trace.iter().position(|l| l.starts_with("closereturned"))) { let _ = (cb, cr); }
             if !trace.iter().any(|l| l == "closereturned true") { viol.push(("close_failed".into(), "Multi::close() with an unbounded timeout answered false".into())); }
-            rep.add_run(&trace, n_old > 0 && n_new > 0, &format!("transition/seq{}/l{limit}", sequential as u8), "Completed");
+            if trace.iter().any(|l| l == "removestuck") { viol.push(("executor_removal_never_returned".into(), format!("flush_and_cancel_executor(\"oldies\") with an unbounded timeout did not come back within 5 s (of the paused clock) although the old events were replayed: {n_old} old (slow), {n_new} new events pending, sequential transition, limit={limit}; oldies_callback ran {} times", trace.iter().filter(|l| *l == "oldies_callback").count()))); }
+            rep.add_run(&trace, n_old > 0 && n_new > 0, &format!("transition/seq{}/l{limit}{}", sequential as u8, if remove_oldies { "/remove-oldies" } else { "" }), "Completed");
             for (k, d) in viol {
                 let header = vec![format!("cmd exec sub=transition runs=1 seedx={seed}"), format!("violation {k}: {d}")];
                 let p = write_replay(&replay_dir, &format!("{pid}-exec-transition-seed{seed}-{k}"), &header, &trace);
@@ -641,6 +730,8 @@ fn main() {
         let mut rng = Rng::new(seed ^ 0xE4EC);
         let variant = VARIANTS[rng.below(4) as usize];
         let timeout = matches!(variant, "futfallible" | "fut") && rng.chance(1, 2);
+        // (drawn from a generator of its own so that the other choices of a seed stay what they were)
+        TIMEOUT_US.store(if sub == "account" && Rng::new(seed ^ 0x5B).chance(1, 3) { 700 } else { TIMEOUT_MS * 1000 }, SeqCst);
         let limit = rng.range(1, if sub == "close" { 4 } else { 8 }) as u32;
         // 0: metrics, 1: logs + metrics, 2: none, 3: expensive metrics, 4: logs + expensive metrics (every setting but 2 counts the items)
         let instr = rng.below(5);
@@ -677,7 +768,7 @@ fn main() {
         });
         drop(rt);
         let letters: String = items.iter().map(|v| ['o', 'e', 's', 'x', 'z'][code(*v) as usize]).collect();
-        let cfgkey = format!("{variant}/to{}/l{limit}/i{instr}/ms{ms}", timeout as u8);
+        let cfgkey = format!("{variant}/to{}{}/l{limit}/i{instr}/ms{ms}", timeout as u8, if timeout && TIMEOUT_US.load(SeqCst) < 1000 { "sub-ms" } else { "" });
         let mut viol: Vec<(String, String)> = vec![];
         let mut trace: Vec<String> = vec![];
         let metrics = instr != 2;
